@@ -461,3 +461,131 @@ def compiles(tree_or_src):
         return True
     except SyntaxError:
         return False
+
+
+class EvalGen(Gen):
+    """Bodies whose every operation is mirrored exactly by the model's standard oracles (Run_Rewrite.v): values are
+    ints, None, lists, tuples, callable user objects and lambdas; no strings / f-strings (iterating a str yields
+    strs), dicts only as ** operands; := targets inside a lambda are numbered by lambda depth (Python decides
+    statically which scope a name belongs to, the model dynamically: with distinct names per depth both agree)."""
+
+    def __init__(self, rng, *, syms=(RECURSE,), cs=CALL_NEXT, method=False, p_odd=0.04):
+        super().__init__(rng, rs=syms[0], cs=cs, kwnames=(31, 32), posnames=(10, 11), vars_=(11, 12, 13),
+                         comp_vars=(20, 21), lam_vars=(25, 26), wal_vars=(15, 16), p_odd=p_odd)
+        self.syms = list(syms)
+        self.method = method
+
+    def leaf(self, scope):
+        r = self.r.random()
+        if r < 0.5:
+            return self.var(scope)
+        if r < 0.9:
+            return [0, [0, self.r.randrange(0, 4)]]
+        return [0, [2]]
+
+    def arg_expr(self, d, scope, ctx, want=None):
+        """an argument expression, biased towards the types the leaves are registered for"""
+        r = self.r.random()
+        if want == "list" or (want is None and r < 0.2):
+            return self.r.choice([[1, [0, 13]], [9, self.leaf(scope + [20]), [0, 20], [1, [0, 13]], []]])
+        if want == "tuple" or (want is None and r < 0.3):
+            return [12, [self.expr(d - 1, scope, "tuple")]]
+        if r < 0.7:
+            return self.expr(d - 1, scope, ctx)
+        return self.leaf(scope)
+
+    def site(self, d, scope, ctx, depth=0):
+        pool = [s for s in self.syms] + ([self.cs] if (self.cs is not None and self.allow_cs) else [])
+        sym = self.r.choice(pool)
+        self.hit("site:" + ctx)
+        args, kws = [], []
+        shape = self.r.random()
+        if self.odd():
+            self.hit("site-star")
+            args = [[1, self.r.choice([[1, [0, 13]], [12, [self.leaf(scope), self.leaf(scope)]]])]]
+        else:
+            n = 2 if shape < 0.8 else self.r.choice([0, 1, 3])
+            wants = self.r.choice([(None, None), ("int", "int"), ("int", "list"), ("list", "int"), ("tuple", "int"), ("int", "tuple")])
+            for i in range(n):
+                args.append([0, self.arg_expr(d, scope, "arg", wants[i] if i < 2 else None)])
+        r = self.r.random()
+        if r < 0.35:
+            kws.append([[1, 31], self.arg_expr(d, scope, "kwarg")])
+        elif r < 0.45:
+            kws.append([[1, 32], self.arg_expr(d, scope, "kwarg", "list")])
+            if self.r.random() < 0.5:
+                kws.append([[1, 31], self.arg_expr(d, scope, "kwarg")])
+        if self.odd():
+            self.hit("site-poskw")
+            if args and not args[-1][0]:
+                last = args.pop()
+                kws.append([[1, 10 + len(args)], last[1]])
+        if self.odd():
+            self.hit("site-dstar")
+            used = {k[1] for k, _ in kws if k[0] == 1}
+            dv = 60 if 31 not in used else (61 if 32 not in used else None)
+            if dv is not None:
+                kws.append([[0], [1, [0, dv]]])
+        return [6, [1, [0, sym]], args, kws]
+
+    def expr(self, d, scope, ctx="top", depth=0):
+        r = self.r.random()
+        if d <= 0:
+            if r < 0.3:
+                return self.site(0, scope, ctx)
+            return self.leaf(scope)
+        if r < 0.24:
+            return self.site(d, scope, ctx)
+        if r < 0.32:
+            return self.leaf(scope)
+        if r < 0.40:
+            self.tag += 1
+            return [11, self.tag, self.expr(d - 1, scope, ctx)]
+        if r < 0.46:
+            return [3, self.r.randrange(2), self.expr(d - 1, scope, "binop"), self.expr(d - 1, scope, "binop")]
+        if r < 0.53:
+            return [4, self.r.randrange(2), [self.expr(d - 1, scope, "boolop") for _ in range(self.r.choice([2, 2, 3]))]]
+        if r < 0.59:
+            return [5, self.expr(d - 1, scope, "if-test"), self.expr(d - 1, scope, "if-body"), self.expr(d - 1, scope, "if-else")]
+        if r < 0.65:
+            f = self.r.choice([[1, [0, 50]], [1, [0, 51]], [2, [1, [0, 50]], 42]])
+            args = [[1 if self.odd() else 0, self.expr(d - 1, scope, "call-arg")] for _ in range(self.r.choice([0, 1, 2]))]
+            kws = [[[1, 31], self.expr(d - 1, scope, "call-kw")]] if self.r.random() < 0.2 else []
+            return [6, f, args, kws]
+        if r < 0.71:
+            lamdepth = sum(1 for x in scope if x in (25, 26))
+            x = 15 + self.r.randrange(2) if lamdepth == 0 else 170 + 10 * self.r.randrange(2) + min(lamdepth, 9)
+            return [7, [0, x], self.expr(d - 1, scope + [x], "walrus")]
+        if r < 0.78:
+            ps = self.r.sample(self.lam_vars, self.r.choice([0, 1, 1, 2]))
+            body = self.expr(d - 1, [s for s in scope if s < 100] + ps, "lambda")
+            lam = [8, [[0, x] for x in ps], body]
+            if self.r.random() < 0.7:
+                n = len(ps) if not self.odd() else len(ps) + 1
+                return [6, lam, [[0, self.expr(d - 1, scope, "lam-arg")] for _ in range(n)], []]
+            return lam
+        if r < 0.89:
+            x = self.r.choice(self.comp_vars)
+            sc = scope + [x]
+            conds = [self.expr(d - 1, sc, "comp-cond") for _ in range(self.r.choice([0, 0, 1, 2]))]
+            it = self.expr(d - 1, scope, "comp-iter") if self.r.random() < 0.4 else self.r.choice([[1, [0, 13]], [12, [self.leaf(scope), self.leaf(scope)]]])
+            return [9, self.expr(d - 1, sc, "comp-elt"), [0, x], it, conds]
+        if r < 0.94:
+            return [12, [self.expr(d - 1, scope, "tuple") for _ in range(self.r.choice([1, 2, 3]))]]
+        if r < 0.98:
+            return [13, self.expr(d - 1, scope, "sub-value"), [0, [0, self.r.randrange(0, 3)]]]
+        self.hit("bare-symbol")
+        return [1, [0, self.r.choice(self.syms + ([self.cs] if self.cs is not None else []))]]
+
+    def body(self, n_stmts=None):
+        n = n_stmts or self.r.choice([1, 1, 2, 3])
+        out = []
+        for i in range(n):
+            e = self.expr(self.r.choice([1, 2, 2, 3, 3]), [], "stmt")
+            if i == n - 1:
+                out.append([2, e])
+            elif self.r.random() < 0.5:
+                out.append([1, [0, self.r.choice([15, 16])], e])
+            else:
+                out.append([0, e])
+        return out
